@@ -470,20 +470,6 @@ SPECS["C14"] = dict(
     floor_nontrivial={"quick": 100, "thorough": 2000},
 )
 
-SPECS["C17"] = v1spec(
-    "TestVerifC17", "stringclassifier/searchset", ["searchset"],
-    title="v1 token offsets and candidate ranges always delimit real text",
-    exhaustive=True,
-    rule=("(1) tokenizer invariants (text == s[Offset:Offset+len], increasing non-overlapping tokens, every non-space rune covered, no whitespace inside a token) on EVERY string of length <= 6 (quick) / 7 (thorough) "
-          "over the 8-symbol alphabet {a, b, space, '.', newline, 0xFF, e-acute, a literal U+FFFD} (exhaustive=true refers to this sub-space), plus seeded long strings over a 14-symbol alphabet incl. NBSP, CJK, combining marks, "
-          "U+2028, truncated UTF-8; (2) FindPotentialMatches invariants (candidates non-empty, ordered by target position, inside the target's token bounds, byte range 0 <= start <= end <= len(target)) on seeded "
-          "(source, target) pairs from vocabularies of 2-8 one-letter words (highly repetitive), lengths 3-40, with/without an embedded copy, several separators incl. invalid bytes. "
-          "case = one block of strings / 500 pairs; non-trivial = block judged (pairs: at least one candidate); distinct = block."),
-    shards={"quick": 1, "thorough": 2}, workers={"quick": 16, "thorough": 8},
-    floor_evals={"quick": 150, "thorough": 5000},
-    floor_nontrivial={"quick": 150, "thorough": 5000},
-    timeout={"quick": 1500, "thorough": 3 * 3600},
-)
 
 
 def run_multi(ctx, spec):
@@ -853,6 +839,30 @@ SPECS["C19"] = dict(
     assumptions=list(V2_ASSUME) + ["the CLI's output format is parsed with a regular expression anchored at '(variant: ..., confidence: ..., start: ..., end: ...)'"],
     floor_evals={"quick": 12, "thorough": 300},
     floor_nontrivial={"quick": 12, "thorough": 300},
+)
+
+
+SPECS["C17"] = dict(
+    run=run_multi, test="TestVerifC17*", level="exploration", exhaustive=True,
+    parts=[
+        dict(module=".", pkgdir="stringclassifier/searchset", harness=["searchset"], test="TestVerifC17", out="searchset",
+             shards={"quick": 1, "thorough": 2}, workers={"quick": 16, "thorough": 8}),
+        dict(module=".", pkgdir="stringclassifier", harness=["strcls"], test="TestVerifC17Matches", out="strcls",
+             shards={"quick": 8, "thorough": 16}, workers={"quick": 1, "thorough": 1}),
+    ],
+    builds=[dict(module=".", pkgdir="stringclassifier/searchset", harness=["searchset"]), dict(module=".", pkgdir="stringclassifier", harness=["strcls"])],
+    title="v1 token offsets and candidate ranges always delimit real text",
+    technique="invariant checks on tokenizer output, candidate ranges and returned Match ranges; exhaustive short strings + seeded workloads",
+    rule=("(1) tokenizer invariants (text == s[Offset:Offset+len], increasing non-overlapping tokens, every non-space rune covered, no whitespace inside a token) on EVERY string of length <= 6 (quick) / 7 (thorough) "
+          "over the 8-symbol alphabet {a, b, space, '.', newline, 0xFF, e-acute, a literal U+FFFD} (exhaustive=true refers to this sub-space), plus seeded long strings over a 14-symbol alphabet incl. NBSP, CJK, combining marks, "
+          "U+2028, truncated UTF-8; (2) FindPotentialMatches invariants (candidates non-empty, ordered by target position, inside the target's token bounds, byte range 0 <= start <= end <= len(target)) on seeded "
+          "(source, target) pairs from vocabularies of 2-8 one-letter words (highly repetitive), lengths 3-40, with/without an embedded copy, several separators incl. invalid bytes; "
+          "(3) classifier level: for seeded (known values, unknown text) pairs incl. verbatim occurrences that begin/end in the middle of a token, sit strictly inside one token, are glued to punctuation or end the text, "
+          "every Match returned by MultipleMatch/NearestMatch satisfies 0 <= Offset, Offset+Extent <= len(normalised unknown) and no call panics (one worker per process; a goroutine panic is attributed to the case). "
+          "case = one block of strings / 500 pairs / one classifier call; non-trivial = block judged, pair block with >= 1 candidate, call with >= 1 match; distinct = case."),
+    assumptions=list(V1_ASSUME),
+    floor_evals={"quick": 5000, "thorough": 50000},
+    floor_nontrivial={"quick": 3000, "thorough": 30000},
 )
 
 
